@@ -33,7 +33,7 @@ ASSUMPTIONS = ["structural equality/hash of nodes is as checked by C04",
                "refusal, counted not judged"]
 MIN_MONITOR = {"mon.preds": 2000, "mon.users1": 300, "mon.users2": 300, "mon.topo": 200,
                "mon.counts": 300, "mon.tags": 300, "mon.materialized": 300}
-N_GRAPHS = {"quick": 1600, "thorough": 16000}
+N_GRAPHS = {"quick": 4000, "thorough": 20000}
 SHARD_TIMEOUT = {"quick": 900, "thorough": 3000}
 
 
